@@ -28,7 +28,9 @@ def run_case(case, ctx):
     prios = case.get("prios") or []
     tmeta = {n: str(prios[i % len(prios)]) for i, n in enumerate(cfg.term_names)
              if prios and prios[i % len(prios)] != 10} if lexkind == "L0" else None
-    text_g = cfg.to_parglare(term_meta=tmeta)
+    text_g = cfg.to_parglare(term_meta=tmeta, extra_rules="LAYOUT: LI | LAYOUT LI | EMPTY;\nLI: WS;",
+                             extra_terminals="WS: /\\s+/;") if case.get("layout_rule") and case.get("lex") == "L0" \
+        else cfg.to_parglare(term_meta=tmeta)
     try:
         grammar = pgl.Grammar.from_string(text_g)
         parser = pgl.GLRParser(grammar, tables=pgl.TABLES[case["table"]])
@@ -145,6 +147,7 @@ def _case(gstrat, lex):
         else:
             max_len = 5
         return {"g": g, "table": draw(st.sampled_from(["LALR", "SLR"])), "lex": lex,
+                "layout_rule": lex == "L0" and draw(st.integers(0, 3)) == 0,
                 # terminal priorities are irrelevant without lexical overlap
                 "prios": draw(st.lists(st.sampled_from([10, 10, 10, 5, 15]), min_size=1, max_size=3)),
                 "fill": draw(FILL), "max_len": max_len}
